@@ -13,6 +13,7 @@ import (
 	"fmt"
 	"net"
 	"os"
+	"runtime"
 	"sort"
 	"sync"
 	"testing"
@@ -24,6 +25,8 @@ import (
 	"github.com/anacrolix/dht/v2/bep44"
 	"github.com/anacrolix/dht/v2/exts/getput"
 	"github.com/anacrolix/dht/v2/krpc"
+
+	"github.com/anacrolix/dht/v2/traversal"
 
 	"verifharness/kit"
 	"verifharness/refmodel"
@@ -43,6 +46,12 @@ type C14Sc struct {
 	Nodes  int
 	// Second fault for the random family (query ops): a write error on this send (0 = none)
 	AlsoWriteErrorAt int
+	// LoopLast (traversal ops): schedule perturbation through the VerifBeforeSelect hook - on every pass
+	// the lookup's run loop is held between releasing its lock and blocking until everything else in the
+	// node has settled, so that every completion of that pass lands in that window.
+	LoopLast bool
+	// rlquery cells: the limiter's burst is At-1 and it never refills
+	RLWaitRetries, RLNoWaitFirst bool
 }
 
 var c14QueryFaults = []string{"none", "reply-at-send", "reply-at-final-wait", "reply-after-return", "cancel-before-send", "cancel-at-delay", "cancel-and-reply-at-send", "write-error", "close-at-delay", "after-close"}
@@ -51,7 +60,13 @@ var c14TravOps = []string{"bootstrap", "announce", "get", "put", "tm"}
 
 func genC14(t *rapid.T) C14Sc {
 	var sc C14Sc
-	if uniformInt(t, 2, "level") == 0 {
+	if lvl := uniformInt(t, 9, "level"); lvl == 8 {
+		sc.Op = "rlquery"
+		sc.NumTries = 1 + uniformInt(t, 3, "numtries")
+		sc.At = 1 + uniformInt(t, sc.NumTries+1, "at")
+		sc.Fault = pick(t, "fault", "reply-while-waiting", "reply-while-waiting", "cancel-while-waiting", "other-query-while-waiting", "stats-while-waiting")
+		sc.RLWaitRetries, sc.RLNoWaitFirst = rapid.Bool().Draw(t, "waitretries"), uniformInt(t, 4, "nowaitfirst") == 0
+	} else if lvl < 4 {
 		sc.Op = pick(t, "op", "query", "query", "query", "ping")
 		sc.NumTries = 1 + uniformInt(t, 4, "numtries")
 		if sc.Op == "ping" {
@@ -67,6 +82,7 @@ func genC14(t *rapid.T) C14Sc {
 		sc.Fault = pick(t, "fault", c14TravFaults...)
 		sc.At = 1 + uniformInt(t, 12, "at")
 		sc.Nodes = 1 + uniformInt(t, 14, "nodes")
+		sc.LoopLast = uniformInt(t, 3, "looplast") == 0
 	}
 	sc.Repeat = 1 + uniformInt(t, 4, "repeat")
 	return sc
@@ -91,6 +107,9 @@ func runC14(sc C14Sc, c *kit.Case) *kit.Violation {
 	}
 	if sc.Op == "query" || sc.Op == "ping" {
 		return runC14Query(sc, c)
+	}
+	if sc.Op == "rlquery" {
+		return runC14RL(sc, c)
 	}
 	return runC14Trav(sc, c)
 }
@@ -371,6 +390,28 @@ func runC14Trav(sc C14Sc, c *kit.Case) *kit.Violation {
 	}()
 	if !sv.barrier(c) {
 		return nil
+	}
+	if sc.LoopLast {
+		c.Label("run-loop-always-last")
+		c03bMu.Lock() // the hook is a package variable of the library
+		defer c03bMu.Unlock()
+		traversal.VerifBeforeSelect = func(*traversal.Operation, bool) {
+			// never a verdict by itself: if the node does not settle within 30 ms the loop simply goes on
+			deadline := time.Now().Add(30 * time.Millisecond)
+			next := time.Now()
+			for now := time.Now(); now.Before(deadline); now = time.Now() {
+				if !now.Before(next) {
+					if sv.C.Idle() {
+						if ok, _ := sv.C.AllBlocked(); ok {
+							return
+						}
+					}
+					next = now.Add(200 * time.Microsecond)
+				}
+				runtime.Gosched() // (not Sleep: a sleeping goroutine would look blocked to the quiescence barrier)
+			}
+		}
+		defer func() { traversal.VerifBeforeSelect = nil }()
 	}
 	base := sv.C.Census()
 	net1 := newSimNet(sv)
